@@ -99,3 +99,58 @@ Lemma ov_update_keys_picked ovs active mask add rem o :
     (push_new (ov_out_nm o) (fold_left (fun a k => push_new k a) (ov_out_mods o) add),
      push_new (ov_in_nm o) (fold_left (fun a k => push_new k a) (ov_in_mods o) rem)).
 Proof. intros H. unfold ov_update_keys. rewrite H. reflexivity. Qed.
+
+(* ---- every key of the list is looked up, wherever it stands and whatever was substituted before it ---- *)
+Definition mods_of (kcs : list N) (m0 : N) : N :=
+  fold_left (fun m k => match mask_for_key k with Some x => N.lor m x | None => m end) kcs m0.
+
+Lemma push_new_in x y l : In x l -> In x (push_new y l).
+Proof. unfold push_new. destruct (mem_n y l); [auto|]. intros H. apply in_or_app. left. exact H. Qed.
+Lemma push_new_self y l : In y (push_new y l).
+Proof.
+  unfold push_new. destruct (mem_n y l) eqn:E.
+  - unfold mem_n in E. apply existsb_exists in E. destruct E as [z [Hz He]]. apply N.eqb_eq in He. subst. exact Hz.
+  - apply in_or_app. right. left. reflexivity.
+Qed.
+Lemma fold_push_new_in x ks : forall l, In x l -> In x (fold_left (fun a k => push_new k a) ks l).
+Proof. induction ks as [|k t IH]; intros l H; [exact H|]. cbn [fold_left]. apply IH. apply push_new_in. exact H. Qed.
+
+Lemma ov_update_mono ovs k m add rem x :
+  (In x add -> In x (fst (ov_update_keys ovs k m add rem))) /\ (In x rem -> In x (snd (ov_update_keys ovs k m add rem))).
+Proof.
+  unfold ov_update_keys. destruct (ov_pick _ m 0 None) as [o|]; cbn [fst snd]; [|auto].
+  split; intros H; apply push_new_in, fold_push_new_in; exact H.
+Qed.
+
+Lemma ov_scan_mono ovs x : forall kcs m add rem,
+  (In x add -> In x (fst (ov_scan ovs kcs m add rem))) /\ (In x rem -> In x (snd (ov_scan ovs kcs m add rem))).
+Proof.
+  induction kcs as [|k t IH]; intros m add rem; cbn [ov_scan]; [auto|].
+  destruct (mask_for_key k); [apply IH|].
+  destruct (ov_update_keys ovs k m add rem) as [a r] eqn:E.
+  pose proof (ov_update_mono ovs k m add rem x) as [H1 H2]. rewrite E in H1, H2. cbn [fst snd] in H1, H2.
+  destruct (IH m a r) as [G1 G2]. split; intros H; [apply G1, H1, H|apply G2, H2, H].
+Qed.
+
+Lemma ov_scan_app ovs : forall a b m add rem,
+  ov_scan ovs (a ++ b) m add rem =
+  (let '(a1, r1) := ov_scan ovs a m add rem in ov_scan ovs b (mods_of a m) a1 r1).
+Proof.
+  induction a as [|k t IH]; intros b m add rem; cbn [app ov_scan mods_of fold_left]; [reflexivity|].
+  destruct (mask_for_key k) as [x|]; [apply IH|].
+  destruct (ov_update_keys ovs k m add rem) as [a1 r1]. apply IH.
+Qed.
+
+Theorem every_matching_key_is_substituted ovs pre k post o :
+  mask_for_key k = None ->
+  ov_pick (filter (fun o' => ov_in_nm o' =? k) ovs) (mods_of pre 0) 0 None = Some o ->
+  In (ov_out_nm o) (fst (ov_scan ovs (pre ++ k :: post) 0 [] [])) /\
+  In (ov_in_nm o) (snd (ov_scan ovs (pre ++ k :: post) 0 [] [])).
+Proof.
+  intros Hk Hp. rewrite ov_scan_app. destruct (ov_scan ovs pre 0 [] []) as [a1 r1].
+  cbn [ov_scan]. rewrite Hk.
+  rewrite (ov_update_keys_picked ovs k (mods_of pre 0) a1 r1 o Hp).
+  split.
+  - apply (proj1 (ov_scan_mono ovs _ post _ _ _)). apply push_new_self.
+  - apply (proj2 (ov_scan_mono ovs _ post _ _ _)). apply push_new_self.
+Qed.
